@@ -2,6 +2,7 @@
     (ID-multiplexed connection: plain UDP, pipelined TCP/DoT).
     Statements only; proofs in Proofs/Tdc.v. *)
 From Verif Require Import Base.Prelude Gen.Constants Model.Tdc Proofs.Tdc.
+From Verif Require Model.Reuse Proofs.Reuse.
 Open Scope N_scope.
 
 (** For every schedule (label list) whose environment obeys the scope clause
@@ -65,3 +66,34 @@ Example c01_nonvacuous :
   | None => False
   end.
 Proof. vm_compute. split; reflexivity. Qed.
+
+(** * The non-pipelined transport (reuse.go, Model.Reuse) *)
+Import Model.Reuse Proofs.Reuse.
+
+(** Under the property's assumption for reused connections (the server sends
+    one reply per query, in order: [xenv]) a successful call returns the reply
+    the server produced for that very call — for every schedule of callers,
+    dials, readers, faults, retries and Close. *)
+Theorem c01_reuse_no_misdelivery ls s c r :
+  xrun xinit ls = Some s -> xenv xinit ls -> ures (xcalls s c) = Some (XOk r) -> xfor r = Some c.
+Proof. exact (reuse_no_misdelivery ls s c r). Qed.
+Print Assumptions c01_reuse_no_misdelivery.
+
+(** A surplus reply (nobody is waiting on the connection) closes the connection and removes it from the pool. *)
+Theorem c01_reuse_surplus_closes ls s n r s' :
+  xrun xinit ls = Some s ->
+  xexists (conns s n) = true -> xhold (conns s n) = Some r -> xwaiting (conns s n) = None ->
+  xstep s (MDispatch n) = Some s' -> xclosed (conns s' n) = true /\ ~ In n (idle s') /\ ~ In n (cset s').
+Proof. exact (reuse_surplus_closes ls s n r s'). Qed.
+Print Assumptions c01_reuse_surplus_closes.
+
+Example c01_reuse_nonvacuous :
+  match xrun xinit [MBegin 0; MGetIdle 0 None; MDialDone 0 true; MDialRecv 0; MInstall 0; MWriteBegin 0; MWriteEnd 0 true;
+                    MRecv 0 (mkXR 100 (Some 0%nat)); MDispatch 0; MSelect 0 XSelReply;
+                    MBegin 1; MGetIdle 1 (Some 0%nat); MInstall 1; MWriteBegin 1; MWriteEnd 1 true;
+                    MRecv 0 (mkXR 101 (Some 1%nat)); MDispatch 0; MSelect 1 XSelReply] with
+  | Some s => ures (xcalls s 0%nat) = Some (XOk (mkXR 100 (Some 0%nat))) /\ ures (xcalls s 1%nat) = Some (XOk (mkXR 101 (Some 1%nat)))
+              /\ idle s = [0%nat]
+  | None => False
+  end.
+Proof. vm_compute. repeat split; reflexivity. Qed.
